@@ -93,8 +93,6 @@ theorem Derives.ne_nil : ∀ {l} {c : List (Tok S)} {e}, Derives l c e → c ≠
   | _, _, _, .matrix .. => by simp
 end
 
-theorem DerivesParams.wf {args : List (Expr S)} {ps} (h : DerivesParams args ps) : True := trivial
-
 theorem DerivesStmt.wf {c : List (Tok S)} {s} (h : DerivesStmt c s) : s.WF := by
   cases h with
   | clear => trivial
